@@ -182,8 +182,9 @@ def _flush_env(bridge="bridge"):
         "state.outputs": {D: None},
         "state.purging_tracker": {},
         "state.purging_queue": [D2],
-        "state.ds2host": {D2: {H1: st("available"), H2: st("available")}, D: {H1: st("available")}},
-        "state.host2ds": {H1: {D2: st("available"), D: st("available")}, H2: {D2: st("available")}},
+        # the dataset to fetch is held by H1 (where it was published) and is *on its way* to H2 (a transfer was commanded, not confirmed)
+        "state.ds2host": {D2: {H1: st("available"), H2: st("available")}, D: {H1: st("available"), H2: st("preparing")}},
+        "state.host2ds": {H1: {D2: st("available"), D: st("available")}, H2: {D2: st("available"), D: st("preparing")}},
         "state.host2workers": {H1: [W1], H2: [W2]},
         "state.worker2ds": {W1: {D2: st("available")}, W2: {}},
         "state.ds2worker": {D2: {W1: st("available")}},
@@ -213,7 +214,8 @@ def r3_r4_flush(ctx):
         purges = [e for e in p.effects if is_call(e, qual=f"{BR}.purge")]
         if not fetches or (fetches[0].data["args"][:2] != [D, H1]):
             ctx.violation("C04.R3", fi.qual, loc(fi), "fetch of queued dataset",
-                          f"queued fetch ({D} from {H1}) is not commanded as such: {[x.brief() for x in fetches]}")
+                          f"queued fetch ({D} from {H1}, which holds it; H2 is only *preparing* it) is not commanded as such: {[x.brief() for x in fetches]} — "
+                          f"a fetch from a host that does not hold the dataset yet fails or never answers")
             continue
         if purges and min(x.seq for x in purges) < max(x.seq for x in fetches):
             ctx.violation("C04.R3", fi.qual, loc(fi, purges[0].node), "purge before fetch",
@@ -360,3 +362,4 @@ RULES = [r_no_downgrade, r1_purge_guard, r2_tracker_removal, r3_r4_flush, r_tran
 from .common import lazy  # noqa: E402
 RULES.append(lazy("C16", "r1_projections", "the purge tracker is initialised from the preschedule's consumer map: a consumer missing there lets its input be purged early"))
 RULES.append(lazy("C03", "r6_loop_wiring", "every requested output is known to the scheduler (else it is purged as unneeded)"))
+RULES.append(lazy("C02", "r12_one_transfer_per_host", "a duplicate transfer is still unanswered when its source is purged after the first copy arrived"))
